@@ -221,6 +221,12 @@ func scaleUnits(sizes []int, t *testing.T, run func(n int) (*Result, []byte)) in
 		}
 		res, cj := run(n)
 		done++
+		for _, cl := range res.Classes {
+			if cl == "setup-failed" {
+				// the probe could not get past building its state: inconclusive (exit 2), never a violation
+				t.Fatalf("INFRA: scale probe (n=%d) did not run (setup-failed); it asserts nothing", n)
+			}
+		}
 		if res.Err != nil {
 			rec.fail(res.Err.Error(), cj, false)
 			t.Fatalf("scale probe (n=%d): %v", n, res.Err)
@@ -332,4 +338,109 @@ func c14Probe(n int) C14Case {
 		c.Wants = append([]int(nil), c.A...)
 		c.Req = []int{1, n - 3}
 		return c
+}
+
+// preScaleC11: UpdateData of the scale history, plain and embedded behind 2^45 opaque leaves.
+func preScaleC11(t *testing.T) {
+	sizes := probeSizes([]int{1 << 9, 1 << 12}, []int{1 << 10, 1 << 13, 1 << 15})
+	scaleUnits(sizes, t, func(n int) (*Result, []byte) {
+		c := C11Case{Blocks: scaleHistory(n), High: 1 << 45}
+		return safeRun(runC11, c), caseJSON(c)
+	})
+	rec.extra("scale_probes", fmt.Sprintf("deterministic history on %v leaves (blocks with thousands of deletions and additions), also embedded behind 2^45 opaque leaves", sizes))
+}
+
+// preScaleC17: the scale history with guarded slices, every second block applied, undone and re-applied.
+func preScaleC17(t *testing.T) {
+	sizes := probeSizes([]int{1 << 9, 1 << 11}, []int{1 << 10, 1 << 12, 1 << 13})
+	scaleUnits(sizes, t, func(n int) (*Result, []byte) {
+		bs := scaleHistoryRem(n)
+		c := C17Case{Maps: []Cfg{{Kind: "map", Full: true, Rows: 0}, {Kind: "map", Rows: 63}}}
+		live := map[int]bool{}
+		next := 0
+		for i, b := range bs {
+			cb := C17Block{B: b, UndoRedo: i%2 == 1, PolRem: i%3 == 0}
+			// a second target set for AddProof and a restriction request, both from what is live before the block
+			for s := next - 1; s >= 0 && len(cb.Other) < 40; s -= 3 {
+				if live[s] {
+					cb.Other = append(cb.Other, s)
+				}
+			}
+			for k := 0; k < len(b.Del); k += 2 {
+				cb.Wants = append(cb.Wants, len(b.Del)-1-k)
+			}
+			c.Blocks = append(c.Blocks, cb)
+			for _, s := range b.Del {
+				delete(live, s)
+			}
+			for k := 0; k < b.Add; k++ {
+				live[next+k] = true
+			}
+			next += b.Add
+		}
+		return safeRun(runC17, c), caseJSON(c)
+	})
+	rec.extra("scale_probes", fmt.Sprintf("deterministic history on %v leaves with guarded slices of thousands of elements; every second block undone and re-applied", sizes))
+}
+
+// preScaleC09: a partial forest through the scale history with a sparse remembered set, a Prune of
+// dozens of leaves in one call, undo, Verify(remember) of hundreds of leaves, Prune of everything.
+func preScaleC09(t *testing.T) {
+	sizes := probeSizes([]int{1 << 9, 1 << 11}, []int{1 << 10, 1 << 12, 1 << 13})
+	scaleUnits(sizes, t, func(n int) (*Result, []byte) {
+		bs := scaleHistoryRem(n)
+		c := C09Case{Rows: 63}
+		if n == 1<<11 || n == 1<<12 {
+			c.Rows = 0
+		}
+		tracked := map[int]bool{}
+		live := map[int]bool{}
+		next := 0
+		for i := range bs {
+			b := bs[i]
+			if i == 1 {
+				// remember a few hundred more leaves first, so that the cache is large when blocks empty subtrees
+				var set []int
+				for s := n/2 + 1; s < n && len(set) < 300; s += 3 {
+					if live[s] && !inSet(b.Del, s) {
+						set = append(set, s)
+					}
+				}
+				c.Steps = append(c.Steps, C09Step{Op: "verify", Set: set})
+				for _, s := range set {
+					tracked[s] = true
+				}
+			}
+			c.Steps = append(c.Steps, C09Step{Op: "block", B: &b})
+			for _, s := range b.Del {
+				delete(live, s)
+				delete(tracked, s)
+			}
+			for k := 0; k < b.Add; k++ {
+				live[next+k] = true
+			}
+			for _, r := range b.Rem {
+				tracked[next+r] = true
+			}
+			next += b.Add
+			if i == 2 {
+				// one Prune call for most of the cache
+				var set []int
+				for s := 0; s < next; s++ {
+					if tracked[s] && s%5 != 0 {
+						set = append(set, s)
+					}
+				}
+				if len(set) > 0 {
+					c.Steps = append(c.Steps, C09Step{Op: "prune", Set: set})
+					for _, s := range set {
+						delete(tracked, s)
+					}
+				}
+			}
+		}
+		c.Steps = append(c.Steps, C09Step{Op: "undo"}, C09Step{Op: "undo"})
+		return safeRun(runC09, c), caseJSON(c)
+	})
+	rec.extra("scale_probes", fmt.Sprintf("partial forest through the scale history on %v leaves: Verify(remember) of 300 leaves, blocks emptying subtrees of 9+ rows, one Prune call for most of the cache, two undos; sandwich invariant after every step", sizes))
 }
